@@ -1,5 +1,78 @@
 package main
 
+import (
+	"math/big"
+	"strings"
+
+	"golang.org/x/tools/go/ssa"
+)
+
 func registerMoreIntrinsics() {
 	registerECIntrinsics()
+	registerKVIntrinsics()
+	m := map[string]intrinsicFn{
+		"encoding/hex.EncodeToString": func(p *Path, _ *ssa.Function, a []Value) Value {
+			bs := termsOf(a[0].(Slice))
+			conc := true
+			for _, b := range bs {
+				if !b.IsConst() {
+					conc = false
+				}
+			}
+			src := Str{b: bs}
+			if conc {
+				r, _ := p.renderStr(Str{sym: &SymStr{kind: "hex", args: []Value{src}}})
+				return r
+			}
+			return Str{sym: &SymStr{kind: "hex", args: []Value{src}}}
+		},
+		"(github.com/MixinNetwork/mixin/common.Integer).String": func(p *Path, _ *ssa.Function, a []Value) Value {
+			// decimal text of an amount: opaque, injective in the amount (text formatting is outside the encoding)
+			return Str{sym: &SymStr{kind: "amount", args: []Value{a[0].(Struct)[0]}}}
+		},
+		"strings.TrimSpace": func(p *Path, _ *ssa.Function, a []Value) Value {
+			s, ok := a[0].(Str).concrete()
+			if !ok {
+				panic(p.unsupported("strings.TrimSpace of symbolic string"))
+			}
+			return p.strConst(strings.TrimSpace(s))
+		},
+		"strings.HasPrefix": func(p *Path, _ *ssa.Function, a []Value) Value {
+			s, pre := a[0].(Str), a[1].(Str)
+			if s.sym != nil || pre.sym != nil {
+				panic(p.unsupported("strings.HasPrefix of structured string"))
+			}
+			if len(s.b) < len(pre.b) {
+				return p.tb.False
+			}
+			return p.strEqual(Str{b: s.b[:len(pre.b)]}, pre)
+		},
+		"strings.Repeat": func(p *Path, _ *ssa.Function, a []Value) Value {
+			s, ok := a[0].(Str).concrete()
+			n := a[1].(*Term)
+			if !ok || !n.IsConst() {
+				panic(p.unsupported("strings.Repeat symbolic"))
+			}
+			return p.strConst(strings.Repeat(s, int(n.Signed().Int64())))
+		},
+		"github.com/MixinNetwork/mixin/common.NewIntegerFromString": func(p *Path, _ *ssa.Function, a []Value) Value {
+			s, ok := a[0].(Str).concrete()
+			if !ok {
+				panic(p.unsupported("NewIntegerFromString of symbolic string (decimal text is outside the encoding)"))
+			}
+			r, good := new(big.Rat).SetString(s)
+			if !good {
+				p.goPanicf("explicit-panic", "NewIntegerFromString(%q): not a decimal", s)
+			}
+			if r.Sign() < 0 {
+				p.goPanicf("explicit-panic", "NewIntegerFromString(%q): negative", s)
+			}
+			r.Mul(r, new(big.Rat).SetInt64(100000000))
+			q := new(big.Int).Quo(r.Num(), r.Denom()) // floor for non-negative
+			return Struct{Big{p.tb.IntBig(q)}}
+		},
+	}
+	for k, v := range m {
+		intrinsics[k] = v
+	}
 }
